@@ -208,6 +208,29 @@ def run_case(ctx, mr, case):
                     ctx.diff('oracle', 'romfs-case-sensitive', dict(case, path=p.swapcase()), 'not found', 'found', 'case-sensitive mode resolved a case variant')
                 except RomFSFileNotFoundError:
                     pass
+        # the Coq model of the path lookup (Model/RomfsPath.v: prefix, split, empty components skipped) on the same tables, for
+        # spellings of existing and of missing paths; case-sensitive mode only (the model has no str.lower)
+        if not case['ci']:
+            for p in paths[:6]:
+                comps = [c for c in p.split('/') if c]
+                if comps and comps[0] == '.':
+                    continue
+                spelled = '/' * rng.choice([0, 1, 2, 3]) + ''.join(c + '/' * rng.choice([1, 1, 2, 3]) for c in comps[:-1]) + (comps[-1] + '/' * rng.choice([0, 0, 1, 2]) if comps else '')
+                if rng.random() < 0.25 and comps:
+                    spelled = spelled.rstrip('/') + '//nothing-here'
+                units = ','.join('%x' % u for u in __import__('struct').unpack('<%dH' % (len(spelled.encode('utf-16le')) // 2), spelled.encode('utf-16le'))) or '-'
+                out = mr.ask(f'romfspath {hx(dm)} {hx(fm)} {units}')
+                try:
+                    raw = r._get_raw_info(spelled)
+                    impl = ('D' + hx(raw['name'].encode('utf-16le')) + ',%d' % len(raw['contents'])) if raw['type'] == 'dir' else \
+                           ('F' + hx(raw['name'].encode('utf-16le')) + ',%s,%s' % (__import__('harness.core', fromlist=['zhex']).zhex(raw['offset']), __import__('harness.core', fromlist=['zhex']).zhex(raw['size'])))
+                    if raw is r._tree_root:
+                        impl = 'D' + hx(b'') + ',%d' % len(raw['contents'])
+                except Exception as ex:
+                    impl = 'e:' + pyenv.errname(ex)
+                ctx.stat('path_model_lookups')
+                if out != impl:
+                    ctx.diff('corr', 'romfs-path-model', dict(case, path=spelled), out[:80], impl[:80], f'path lookup of {spelled!r}: Coq model and implementation differ')
         files_ = [p for p, (k, _) in flat.items() if k == 'file']
         for t in range(6):
             base = rng.choice([p for p, (k, _) in flat.items() if k == 'dir'])
@@ -372,7 +395,7 @@ def run_cases(ctx, cases):
 
 
 def run(ctx):
-    proof = prove('C06', ['util', 'romfs'], ['C06_props'], static_deps=['Proofs/RomfsProofs.v', 'Proofs/RomfsRepProofs.v'])
+    proof = prove('C06', ['util', 'romfs'], ['C06_props'], static_deps=['Proofs/RomfsProofs.v', 'Proofs/RomfsRepProofs.v', 'Proofs/RomfsPathProofs.v'])
     run_cases(ctx, (gen_case(ctx.rng) for _ in range(ctx.n(120, 4000))))
     run_cases(ctx, [dict(deep=d, ci=bool(d % 2)) for d in ([40, 333, 1200, 2501] if ctx.quick() else [40, 333, 999, 1200, 2501, 5000, 20001])])
 
